@@ -133,7 +133,8 @@ def one(ctx, rng, xr, model, dmod, disp, direct):
         rec.bad("dir_range", key, {"dir": do}, "directions-outside-0-360")
         return
     rec.ok("dir_range", key)
-    f32 = model in ("ww3", "era5")
+    # single-precision natives: WW3 / ERA5 by definition; any model whose spectral coordinates were stored as float32
+    f32 = model in ("ww3", "era5") or any(ds[v].dtype == np.float32 for v in ("direction", "SPDIR", "frequency", "SPSIG") if v in ds.variables)
     rt = 3e-5 if f32 else 1e-9
     if fo.shape != t["freq"].shape or np.max(np.abs(fo - t["freq"]) / t["freq"]) > (1e-6 if f32 else 1e-12):
         rec.bad("freq", key, {"freq_out": fo, "freq_true": t["freq"]}, "frequency-coordinate-wrong")
